@@ -805,7 +805,7 @@ func oracleC01(r *CallRecord) []problem {
 		if s.ServerSaw == r.ExpectServerSaw {
 			continue
 		}
-		if (r.Call.Op == "echoStream" || r.Call.Op == "echoWild") && strings.Contains(s.ServerSaw, `Err:"read error"`) {
+		if (r.Call.Op == "echoStream" || r.Call.Op == "echoWild" || r.Call.Op == "echoOpt") && strings.Contains(s.ServerSaw, `Err:"read error"`) {
 			continue // raw stream: a prefix and a read error
 		}
 		add("under a link fault the handler is not called with a different value", fmt.Sprintf("delivery %d: %s", i, firstDiff(r.ExpectServerSaw, s.ServerSaw)))
@@ -867,7 +867,7 @@ func oracleC15(r *CallRecord) []problem {
 				if s.Status != r.ExpectStatus && k != "writer-fail" {
 					add("handler outcome surfaces as its response", fmt.Sprintf("delivery %d: status %d, the handler's answer is %d", i, s.Status, r.ExpectStatus))
 				}
-			} else if (r.Call.Op == "echoStream" || r.Call.Op == "echoWild") && strings.Contains(s.ServerSaw, `Err:"read error"`) {
+			} else if (r.Call.Op == "echoStream" || r.Call.Op == "echoWild" || r.Call.Op == "echoOpt") && strings.Contains(s.ServerSaw, `Err:"read error"`) {
 				if s.Status != 500 {
 					add("handler failures surface as the spec's error response or 500", fmt.Sprintf("delivery %d: handler failed, status %d", i, s.Status))
 				}
